@@ -508,6 +508,9 @@ def run(ck, F):
             elif any(c.endswith(("wrapping_add", "checked_add", "saturating_add")) for c in calls) and any(
                     c.endswith(("Iterator::any", "::contains")) for c in calls):
                 ck.ok("R4", f"loop@{_ord(b, cyc)}:counter", site, "counter loop whose exit is `no existing entry equals the candidate` (pigeonhole bound)", fn=b["path"])
+            elif _work_list_descent(B, cyc):
+                ck.ok("R4", f"loop@{_ord(b, cyc)}:work-list", site, "walk of the XML tree with a stack of child iterators: every round draws a node from the "
+                      "top iterator or pops it; only the children of a node just drawn are pushed (finite tree)", fn=b["path"])
             else:
                 ck.violation("R4", f"loop@{_ord(b, cyc)}", site, f"loop of unrecognised shape (calls: {sorted(set(calls))[:6]}): termination not established", fn=b["path"])
     ck.floor("R4", "loops", n_loops, 6)
@@ -623,6 +626,56 @@ def rule_copy_fanout(ck, F):
 
 def _ord(b, cyc):
     return f"bb{cyc[0]}"
+
+
+DRAWS = ("iter::Iterator::find", "iter::Iterator::next", "iter::Iterator::find_map", "iter::Iterator::nth", "DoubleEndedIterator::next_back")
+
+
+def _work_list_descent(B, cyc):
+    """a recursion over the XML tree written as a loop with a stack of its own: the loop looks at the top of a `Vec` of child
+    iterators (`last_mut` / `pop`), draws a node from it (`find` / `next`) or pops it when it is used up, and pushes nothing but the
+    `children()` of a node it has just drawn. Every node of the (finite) tree is drawn at most once per iterator that holds it and
+    gives rise to at most one push: the walk ends."""
+    cyc = set(cyc)
+    stack_locals = set()
+    tops, pops, pushes, draws = [], [], [], []
+    for x in cyc:
+        t = B.term(x)
+        if t.get("k") != "call" or not t.get("args"):
+            continue
+        d = M.Body.callee_decl(t) or ""
+        if d.endswith(("[T]>::last_mut", "[T]>::last", "Vec::<T, A>::pop", "Vec::<T, A>::push")):
+            os_ = M.trace(B, t["args"][0], M.IDENTITY_CALLS + ("ops::DerefMut::deref_mut",))
+            ty = " ".join(str(B.local_ty(getattr(o, "local", None))) for o in os_ if getattr(o, "local", None) is not None)
+            if "roxmltree::Children" not in ty and "roxmltree::Descendants" not in ty:
+                # the type of the vector itself
+                tys = [str(B.local_ty(o.local)) for o in os_ if o.kind in ("arg",)] + [str(B.local_ty(t["args"][0]["p"]["l"]))] if t["args"][0].get("k") in ("copy", "move") else []
+                if not any("roxmltree::Children" in y for y in tys):
+                    continue
+            if d.endswith("::push"):
+                pushes.append(t)
+            elif d.endswith("::pop"):
+                pops.append(t)
+            else:
+                tops.append(t)
+        elif d.endswith(DRAWS):
+            draws.append((x, t))
+    if not (tops or pops) or not pops or not draws:
+        return False
+    draw_bbs = {x for x, _ in draws}
+    for t in pushes:
+        if len(t["args"]) != 2:
+            return False
+        os_ = M.trace(B, t["args"][1], M.IDENTITY_CALLS)
+        if not os_:
+            return False
+        for o in os_:
+            if not (o.kind == "call" and (M.Body.callee_decl(o.term) or "").endswith("Node::<'a, 'input>::children") and o.bb in cyc):
+                return False
+            src = M.trace(B, o.term["args"][0], M.IDENTITY_CALLS)
+            if not src or not all(s_.kind == "call" and s_.bb in draw_bbs for s_ in src):
+                return False
+    return True
 
 
 def _loop_calls(F, B, cyc, depth=0):
